@@ -1,6 +1,6 @@
 \* quick tier: the whole case space is model-checked; a stratified sample is emitted for replay
 CONSTANTS
-  Dev = {"LateLockTrustsReply", "StrippedUnnoticed", "LockTrustsSlate"}
+  Dev = {"LateLockTrustsReply", "StrippedUnnoticed", "LockTrustsSlate", "SenderKeyFromActive"}
   Amts = {1000, 1001, 59975, 60000, 70000}
   IncFees = {FALSE, TRUE}
   NChanges = {1, 2}
